@@ -26,6 +26,13 @@ def main(argv):
         cov = coverage.Coverage(data_file=os.path.join(os.environ["VERIF_COV_DIR"], f".coverage.{pid}"), data_suffix=True,
                                 include=[os.path.join(os.environ.get("VERIF_REPO", "/repo"), "src", "*")], omit=["*/tests/*"])
         cov.start()
+    from vlib.result import is_env_error
+    try:
+        # dependency configuration only: two compression threads per call instead of one per core (up to 14 shards run side by side)
+        import mtscomp
+        mtscomp.DEFAULT_CONFIG = [(k, (2 if k == "n_threads" else v)) for k, v in mtscomp.DEFAULT_CONFIG]
+    except Exception:
+        pass
     mod = importlib.import_module(f"checks.{pid.lower()}")
     cases = json.loads(Path(inp).read_text())
     scratch = Path(os.environ["VERIF_SHARD_SCRATCH"])
@@ -36,16 +43,23 @@ def main(argv):
             d.mkdir(parents=True, exist_ok=True)
             os.environ["VERIF_CASE_SCRATCH"] = str(d)
             t0 = time.time()
-            try:
-                r = mod.run_case(case)
-                r = r.as_dict() if hasattr(r, "as_dict") else dict(r)
-            except BaseException as e:  # harness failure: never a verdict about the property
-                if isinstance(e, KeyboardInterrupt):
-                    raise
-                r = {"violations": [], "observed": {}, "nontrivial": False,
-                     "harness_error": f"{type(e).__name__}: {e}\n{traceback.format_exc()[-1500:]}"}
-            finally:
-                shutil.rmtree(d, ignore_errors=True)
+            for attempt in range(4):
+                try:
+                    r = mod.run_case(case)
+                    r = r.as_dict() if hasattr(r, "as_dict") else dict(r)
+                    break
+                except BaseException as e:  # harness failure: never a verdict about the property
+                    if isinstance(e, KeyboardInterrupt):
+                        raise
+                    r = {"violations": [], "observed": {}, "nontrivial": False,
+                         "harness_error": f"{type(e).__name__}: {e}\n{traceback.format_exc()[-1500:]}"}
+                    if not is_env_error(e) or attempt == 3:
+                        break
+                    # the host ran out of threads / memory / handles: wait and run the case again from a clean scratch directory
+                    time.sleep(5 * (attempt + 1))
+                    shutil.rmtree(d, ignore_errors=True)
+                    d.mkdir(parents=True, exist_ok=True)
+            shutil.rmtree(d, ignore_errors=True)
             r["_i"] = case["_i"]
             r["_wall"] = round(time.time() - t0, 2)
             fo.write(json.dumps(r, default=str) + "\n")
